@@ -153,10 +153,8 @@ Definition restore_rec (li : N) (s : st) (r : rec) : result st :=
 Definition restore (li : N) (recs : list rec) : result st := rfold (restore_rec li) recs st0.
 
 (* SnapshotHeader.LastIndex = the maximum of the index rows named like tables (state.Snapshot());
-   only the four rows of the core model are visible here, the catalog rows are not modelled, so
-   the theorems quantify over every value of [li]. *)
-Definition last_index (s : st) : N :=
-  map_fold (fun _ v acc => N.max v acc) 0 (index s).
+   the catalog rows are not modelled, so [li] is a free input here (the run feeds the header's
+   real value) and the theorems quantify over every value of it. *)
 
 (* ---------- what a restore does to the health checks (finding: check-service-fields) ----------
    ensureCheckTxn copies the service's CURRENT name into the check each time it stores the check;
